@@ -2,7 +2,10 @@
 //! UPDATEs (UpdateMessage -> bgp_tcp_in process_update -> Update::Bulk ->
 //! RibUnitRunner::process_update), then the real PrefixesApi answers GET
 //! requests. Same case grammar as oracle/eng_ribquery.ml:
-//!   L v4 v6                      query limits (before the first Q; default 8 19)
+//!   L v4 v6                      query limits the unit starts with (the API object is built afterwards; default 8 19)
+//!   R v4 v6                      the unit is reconfigured while the API object exists: the new limits are stored
+//!                                into the Arc<ArcSwap<QueryLimits>> the runner shares with its PrefixesApi
+//!                                (what RibUnitRunner::run does on GateStatus::Reconfiguring); the API is NOT rebuilt
 //!   P k asn|-|x                  peer k: registered with remote AS / without / not registered
 //!   A k fam addr/len tag path comms   announce (fam 0 v4u 1 v6u 2 v4m 3 v6m; addr hex;
 //!                                     path: '-' or comma list of ASNs, 's' = an AS_SET segment;
@@ -19,7 +22,7 @@ use rotonda::ingress::{IngressInfo, Register};
 use rotonda::payload::Update;
 use rotonda::roto_runtime::types::{PeerRibType, Provenance};
 use rotonda::verif::ribquery::hyper::{body, Body, Method, Request};
-use rotonda::verif::ribquery::{prefixes_api, PrefixesApi, ProcessRequest, RibUnitRunner};
+use rotonda::verif::ribquery::{prefixes_api_shared, reconfigure_limits, PrefixesApi, ProcessRequest, RibUnitRunner};
 use routecore::bgp::message::{SessionConfig, UpdateMessage};
 use routecore::bgp::types::AfiSafiType;
 use std::collections::BTreeMap;
@@ -192,7 +195,8 @@ impl World {
     }
     fn api(&mut self) -> &PrefixesApi {
         if self.api.is_none() {
-            self.api = Some(prefixes_api(&self.rib, "/prefixes/", self.limits.0, self.limits.1, self.reg.clone()));
+            // wired as RibUnitRunner::new does: the limits cell is the runner's own
+            self.api = Some(prefixes_api_shared(&self.rib, "/prefixes/", self.limits.0, self.limits.1, self.reg.clone()));
         }
         self.api.as_ref().unwrap()
     }
@@ -266,6 +270,13 @@ fn step(w: &mut World, op: &[&str]) -> String {
     let n = |i: usize| op[i].parse::<u32>().unwrap();
     match op[0] {
         "L" => { w.limits = (n(1) as u8, n(2) as u8); w.api = None; "-".into() }
+        "R" => {
+            // the API object exists before the limits change, and survives the change
+            w.api();
+            w.limits = (n(1) as u8, n(2) as u8);
+            reconfigure_limits(&w.rib, w.limits.0, w.limits.1);
+            "-".into()
+        }
         "P" => {
             let k = n(1);
             if op[2] == "x" { w.peers.insert(k, 800_000 + k); }
